@@ -108,6 +108,9 @@ def cases(draw):
         # user relying on the tracker's default evaluator (then an earlier search of the same kind
         # has already run in this process)
         "tracker": draw(st.sampled_from(["algorithm", "explicit-evaluator", "default-evaluator", "default-evaluator"])),
+        # GP only: the initial individuals were scored before under ANOTHER problem (warm start from
+        # an earlier search); that problem rates every program with the target value
+        "prescored": draw(st.sampled_from([False, False, True])),
     }
 
 
@@ -218,11 +221,27 @@ class Budgets(Facet):
                 except Exception:  # noqa: BLE001
                     pass
                 del invoked[:]
+            init = None
+            if case.get("prescored") and case["alg"] == "gp":
+                from geneticengine.algorithms.gp.structure import PopulationInitializer
+                from geneticengine.problems import SingleObjectiveProblem
+                from geneticengine.solutions.individual import Individual
+
+                decoy = SingleObjectiveProblem(lambda p: float(tval if tval is not None else 0), minimize=case["minimize"])
+
+                class PreScored(PopulationInitializer):
+                    def initialize(self, problem, representation, random, target_size):
+                        inds = [Individual(representation.create_genotype(random), representation) for _ in range(target_size)]
+                        SequentialEvaluator().evaluate(decoy, inds)
+                        yield from inds
+
+                init = PreScored()
+                rec.label("prescored-initial-population")
             try:
                 _, best = w.search(
                     case["alg"], 0, case["popsize"], fitness=ff, minimize=case["minimize"],
                     tracker=mk_tracker,
-                    budget_obj=budget, step=step,
+                    budget_obj=budget, step=step, initializer=init,
                 )
             except StopSearch as s:
                 if str(s) == "counter":
